@@ -179,18 +179,22 @@ theorem Ext.fkeys_subset {c c' : Ctx} (h : Ext c c') {e : Eid} (he : e ∈ fkeys
   simp only [fkeys, hx, List.map_append, List.mem_append]
   exact Or.inl he
 
-/-- The compiled tag references of the post-filters of a fold whose source vertex `u` is already
-recorded and active, against the assignment extended by the fold's own count tags. -/
+/-- The compiled tag references of the post-filters of the fold `eid` (count `n`) whose source vertex
+`u` is already recorded and active, against the assignment extended by the fold's own count tags. -/
 theorem tagSem_post (W : World) (base : List (Name × Tagged)) {c c1 : Ctx} {L : List Ev} {u : Vid}
     {V : IRVertex} (hV : W.comp.vertex? u = some V) (hi : Inv W c L) (hu : Ev.vtx u ∈ L)
-    (hext : Ext c c1) (hact : c1.active = look c u)
-    (hn : (base.map (·.1) ++ tagNames W L).Nodup) (l2 : List (Name × Tagged))
+    (hext : Ext c c1) (hact : c1.active = look c u) (eid : Eid) (n : Nat)
+    (hany : W.comp.folds.any (·.eid == eid) = true) (hcnt : c1.foldCount? eid = some (some n))
+    (hn : (base.map (·.1) ++ tagNames W (L ++ [.fold eid])).Nodup)
     (o : List (Name × Value)) :
-    TagSem W u c1 ⟨(absL W base L c).tags ++ l2, o⟩ (TRefAt W u L) := by
+    TagSem W u c1 ⟨(absL W base L c).tags ++ (W.CT eid).map fun m => (m, cntTag (some n)), o⟩
+      (TRefPost W u L eid) := by
+  have hn1 : (base.map (·.1) ++ tagNames W L).Nodup := by
+    rw [tagNames_append, ← List.append_assoc] at hn; exact (List.nodup_append.1 hn).1
   intro t r href
-  rcases href with ⟨w, fld, ty, rfl, hmem, hw⟩ | ⟨e, root, rfl, hmem, hL, hany⟩
+  rcases href with (⟨w, fld, ty, rfl, hmem, hw⟩ | ⟨e, root, rfl, hmem, hL, hany'⟩) | ⟨root, rfl, hmem⟩
   · rcases hw with rfl | ⟨hwL, hne, hsome⟩
-    · have hlook := absL_tag?_vtx W (c := c) hn hu hmem
+    · have hlook := absL_tag?_vtx W (c := c) hn1 hu hmem
       refine ⟨_, tagValue_local W w fld ty c1 hV, ?_, ?_⟩
       · rw [tag?_append_left hlook]; rfl
       · intro ha
@@ -200,18 +204,30 @@ theorem tagSem_post (W : World) (base : List (Name × Tagged)) {c c1 : Ctx} {L :
         simp [tagOf, hx]
     · obtain ⟨Vw, hVw⟩ := Option.isSome_iff_exists.1 hsome
       have hk : w ∈ keys c := by rw [hi.vk]; exact mem_vtxs.2 hwL
-      have hlook := absL_tag?_vtx W (c := c) hn hwL hmem
+      have hlook := absL_tag?_vtx W (c := c) hn1 hwL hmem
       have hv1 : c1.vertexAt? w = some (look c w) := by
         rw [vertexAt?_eq_look (hext.keys_subset hk), look_stable hext hk]
       refine ⟨_, tagValue_other W u w fld ty c1 hne hVw hv1, ?_, ?_⟩
       · rw [tag?_append_left hlook]; rfl
       · intro _; exact tag?_append_left hlook
   · have hk : e ∈ fkeys c := by rw [hi.fk]; exact mem_flds.2 hL
-    have hcnt : c1.foldCount? e = some (cnt c e) := by
+    have hcnt' : c1.foldCount? e = some (cnt c e) := by
       rw [foldCount?_eq_cnt (hext.fkeys_subset hk), cnt_stable hext hk]
-    have hlook := absL_tag?_fold W (c := c) hn hL hmem
-    refine ⟨_, tagValue_fcount W u e root c1 hany hcnt, ?_, ?_⟩
+    have hlook := absL_tag?_fold W (c := c) hn1 hL hmem
+    refine ⟨_, tagValue_fcount W u e root c1 hany' hcnt', ?_, ?_⟩
     · rw [tag?_append_left hlook]; rfl
     · intro _; exact tag?_append_left hlook
+  · -- the fold's own count tag
+    have hfind : (⟨(absL W base L c).tags ++ (W.CT eid).map fun m => (m, cntTag (some n)), o⟩ : Asg).tag? t =
+        some (cntTag (some n)) := by
+      apply tag?_append_right
+      · rw [List.map_append, absL_tagNames]
+        have : ((W.CT eid).map fun m => (m, cntTag (some n))).map (·.1) = tagNames W [.fold eid] := by
+          simp [tagNames, evTagNames, Function.comp_def]
+        rw [this, List.append_assoc, ← tagNames_append]; exact hn
+      · exact List.mem_map.2 ⟨t, hmem, rfl⟩
+    refine ⟨_, tagValue_fcount W u eid root c1 hany hcnt, ?_, ?_⟩
+    · rw [hfind]; rfl
+    · intro _; exact hfind
 
 end TF.InterpSpec
